@@ -13,14 +13,23 @@ P_idle_rbulk == [main |-> <<O("new", 3, 0), O("idle", 0, 0), O("rbulk", 1, 2), O
 P_del == [main |-> <<O("new", 2, 0), O("del", 0, 0)>>]
 P_resize == [main |-> <<O("new", 2, 0), O("resize", 1, 0), O("resize", 2, 0), O("del", 0, 0)>>]
 \* C08: a resize that drains ring tasks itself
-P_c08 == [main |-> <<O("new", 2, 0), O("idle", 0, 0), O("rbulk", 1, 2), O("sync", 0, 0), O("quiet", 0, 0), O("del", 0, 0)>>,
+\* (no `quiet` gate after a ring submission that races a shrinking resize: at pool level nobody plays the task-set waiter
+\*  that drains a ring whose owner is gone, so the task waits for the next drain = the destructor; DESIGN 0.4)
+P_c08 == [main |-> <<O("new", 2, 0), O("idle", 0, 0), O("rbulk", 1, 2), O("sync", 0, 0), O("del", 0, 0)>>,
           p2 |-> <<O("up", 0, 0), O("resize", 1, 0)>>]
 \* C03: ring fast path racing a shrink
-P_c03 == [main |-> <<O("new", 3, 0), O("rbulk", 1, 3), O("sync", 0, 0), O("quiet", 0, 0), O("del", 0, 0)>>,
+P_c03 == [main |-> <<O("new", 3, 0), O("rbulk", 1, 3), O("sync", 0, 0), O("del", 0, 0)>>,
           p2 |-> <<O("up", 0, 0), O("resize", 2, 0)>>]
 \* C07 known finding: repeated single submissions into a (re-)parked pool
 P_idle_fq3 == [main |-> <<O("new", 2, 0), O("idle", 0, 0), O("fq", 1, 0), O("idle", 0, 0), O("fq", 2, 0),
                           O("idle", 0, 0), O("fq", 3, 0), O("quiet", 0, 0), O("del", 0, 0)>>]
+\* a single submission (claimAndWakeOne: the kernel may release another waiter than the claimed one, which stays parked
+\* with its sleep bit cleared), the pool parks again, then the ring fast path targets the claimed worker's ring
+P_idle_fq_rbulk == [main |-> <<O("new", 2, 0), O("idle", 0, 0), O("fq", 1, 0), O("quiet", 0, 0), O("idle", 0, 0), O("rbulk", 2, 1),
+                               O("quiet", 0, 0), O("del", 0, 0)>>]
+\* the same with a central-queue bulk / a second single submission after the stale bit
+P_idle_fq_bulk == [main |-> <<O("new", 2, 0), O("idle", 0, 0), O("fq", 1, 0), O("quiet", 0, 0), O("idle", 0, 0), O("bulk", 2, 1),
+                              O("quiet", 0, 0), O("del", 0, 0)>>]
 \* placed scheduling (steal rings) from an idle pool, no back-stop
 P_idle_placed == [main |-> <<O("new", 2, 0), O("idle", 0, 0), O("pfq", 1, 0), O("quiet", 0, 0), O("del", 0, 0)>>]
 P_idle_placed3 == [main |-> <<O("new", 3, 0), O("idle", 0, 0), O("pfq", 1, 0), O("placed", 2, 0), O("quiet", 0, 0), O("del", 0, 0)>>]
